@@ -18,7 +18,7 @@ func init() {
 		ID:    "C18",
 		Level: "fault_enumeration",
 		Rule: "reader: generated streams x every byte offset (all offsets for small streams, strided + random for larger) as the point where the reader fails with a sentinel error after a partial read, " +
-			"x reader kinds {seekable, plain, bufio} x {explicit, auto} x {NextPacket, NextData}; writer: Muxer histories (WriteTables / WriteData ending in packets with 0, 1, 2, many stuffing bytes / WritePacket) " +
+			"x reader kinds {seekable, plain, bufio} x {explicit, auto} x {NextPacket, NextData}; seeker: the Seek call of packet-size detection or of Rewind (after 0..5 calls) fails, a later Rewind succeeds and is compared with a fresh run; writer: Muxer histories (WriteTables / WriteData ending in packets with 0, 1, 2, many stuffing bytes / WritePacket) " +
 			"re-run with the k-th Write call failing, for every k of the fault-free run, permanently and once, accepting 0 or a partial count; distinct = (stream or history, fault position, mode); " +
 			"non-trivial = the fault was actually injected during an API call",
 		Assumptions: []string{"for a bufio.Reader the pending call is the first call that returns an error (bufio delays the failure)", "after the first surfaced error the run stops: later behaviour is not part of the property"},
@@ -28,6 +28,8 @@ func init() {
 			var out []string
 			need(m, &out, "reader_faults_injected", 20000)
 			need(m, &out, "writer_faults_injected", 20000)
+			need(m, &out, "seek_faults_injected", 1000)
+			need(m, &out, "recovered_rewinds_compared", 500)
 			need(m, &out, "reader_fault_in_detection_window", 500)
 			need(m, &out, "writer_fault_region_stuffing-af", 20)
 			need(m, &out, "writer_fault_one_shot", 5000)
@@ -112,6 +114,19 @@ func runC18(c *mon.Ctx) {
 			c.Sample("reader", map[string]any{"stream_bytes": L, "fault_offsets": len(offs), "configs": len(cfgs)})
 		}
 	}
+	// ---- seeker: the reader's Seek is part of the underlying reader; the library seeks after packet-size detection and in Rewind ----
+	nsk := c.Pick(200, 6000)
+	for i := int64(0); i < nsk; i++ {
+		if !c.Mine("seeker", i) {
+			continue
+		}
+		r := c.Rng("seeker", i)
+		m := gen.RandomModel(r, gen.ModelOpts{MaxPES: 2, MaxPMT: 1, MaxSI: 1, MaxUnits: 3})
+		s := m.Build(r)
+		for _, api := range []string{"packet", "data"} {
+			seekFaults(c, i, r, s, api)
+		}
+	}
 	// ---- writer ----
 	nw := c.Pick(64, 1500)
 	for i := int64(0); i < nw; i++ {
@@ -182,6 +197,100 @@ func readerFault(c *mon.Ctx, idx int64, input []byte, cfg DemuxCfg, base []Item,
 		return
 	}
 	c.Violate("C18/reader/fault-never-surfaced:"+cls+":"+region, "reader", idx, fmt.Sprintf("reader failed at offset %d but no call returned an error", f), data)
+}
+
+// seekFaults: (a) auto-detection on a seekable reader whose Seek fails: the first call must return an error wrapping the cause and
+// nothing else; (b) Rewind with a failing Seek, after 0..n calls, explicit and auto-detected size: Rewind must return an error wrapping
+// the cause; (c) a Rewind whose Seek succeeds after an earlier failed one restarts from the first byte.
+func seekFaults(c *mon.Ctx, idx int64, r *rand.Rand, s *gen.Stream, api string) {
+	next := func(dmx *astits.Demuxer) (it Item, panicked string) {
+		p, v, st := mon.Guarded(func() {
+			if api == "packet" {
+				it.Packet, it.Err = dmx.NextPacket()
+			} else {
+				it.Data, it.Err = dmx.NextData()
+			}
+		})
+		if p {
+			panicked = fmt.Sprintf("%v\n%s", v, st)
+		}
+		return
+	}
+	data := map[string]any{"api": api, "stream": mon.Hex(s.Bytes, 1200)}
+	// (a)
+	dmx, tap := NewDemuxerFor(s.Bytes, DemuxCfg{Reader: "seek", API: api, HasSeekFail: true, SeekFailIdx: 0})
+	it, pn := next(dmx)
+	c.Count("seek_faults_injected")
+	c.Case(mon.HashStr("sk-a", fmt.Sprint(idx, api)), true)
+	switch {
+	case pn != "":
+		c.Violate("C18/seeker/panic:detection", "seeker", idx, pn, data)
+	case tap.NSeeks == 0:
+		c.Violate("C18/seeker/no-seek-during-detection", "seeker", idx, "auto-detection on a seekable reader did not seek back", data)
+	case it.Err == nil:
+		c.Violate("C18/seeker/fault-never-surfaced:detection:"+api, "seeker", idx, "Seek failed during packet-size detection, the call returned a result", data)
+	case !errors.Is(it.Err, mon.ErrInjected):
+		c.Violate("C18/seeker/error-does-not-wrap-cause:detection:"+api, "seeker", idx, fmt.Sprintf("first error: %v", it.Err), data)
+	}
+	// (b), (c)
+	for _, ps := range []int{188, 0} {
+		k := r.IntN(6)
+		skIdx := 0
+		if ps == 0 && k > 0 {
+			skIdx = 1 // detection has used the first Seek
+		}
+		dmx, tap = NewDemuxerFor(s.Bytes, DemuxCfg{Reader: "seek", API: api, PacketSize: ps, HasSeekFail: true, SeekFailIdx: skIdx})
+		for j := 0; j < k; j++ {
+			if _, pn = next(dmx); pn != "" {
+				return
+			}
+		}
+		var rerr error
+		p, v, st := mon.Guarded(func() { _, rerr = dmx.Rewind() })
+		c.Count("seek_faults_injected")
+		c.Count("rewinds_with_failing_seek")
+		c.Case(mon.HashStr("sk-b", fmt.Sprint(idx, api, ps)), true)
+		cls := sizeCls(ps) + ":" + api
+		if p {
+			c.Violate("C18/seeker/panic:rewind", "seeker", idx, fmt.Sprintf("%v\n%s", v, st), data)
+			continue
+		}
+		if tap.NSeeks != skIdx+1 {
+			c.Violate("C18/seeker/unexpected-seek-count:"+cls, "seeker", idx, fmt.Sprintf("%d Seek calls, expected %d", tap.NSeeks, skIdx+1), data)
+			continue
+		}
+		if rerr == nil {
+			c.Violate("C18/seeker/fault-never-surfaced:rewind:"+cls, "seeker", idx, "Seek failed, Rewind returned nil", data)
+			continue
+		}
+		if !errors.Is(rerr, mon.ErrInjected) {
+			c.Violate("C18/seeker/error-does-not-wrap-cause:rewind:"+cls, "seeker", idx, fmt.Sprintf("Rewind returned: %v", rerr), data)
+			continue
+		}
+		// (c) the next Rewind succeeds: the output afterwards equals a fresh run
+		p, v, st = mon.Guarded(func() { _, rerr = dmx.Rewind() })
+		if p || rerr != nil {
+			c.Violate("C18/seeker/rewind-after-failed-rewind:"+cls, "seeker", idx, fmt.Sprintf("panic=%v err=%v %s", v, rerr, st), data)
+			continue
+		}
+		var got []Item
+		for j := 0; j < len(s.Bytes)+64; j++ {
+			it, pn = next(dmx)
+			if pn != "" {
+				c.Violate("C18/seeker/panic:after-rewind", "seeker", idx, pn, data)
+				return
+			}
+			if errors.Is(it.Err, astits.ErrNoMorePackets) {
+				break
+			}
+			got = append(got, it)
+		}
+		fresh := RunDemux(s.Bytes, DemuxCfg{Reader: "seek", API: api, PacketSize: ps})
+		if d := itemsEqual(got, fresh.Items); d != "" {
+			c.Violate("C18/seeker/differs-from-fresh-after-recovered-rewind:"+cls, "seeker", idx, d, data)
+		}
+		c.Count("recovered_rewinds_compared")
+	}
 }
 
 type wop struct {
